@@ -178,8 +178,10 @@ def rule_ordering_types(run, prog, rid="R-5.13"):
                 if same:
                     locals_["@" + other] = cname
             # locals bound from typed expressions (single assignment, tuple unpacking of a tuple of expressions)
-            for st in walk_fn(m.node):
-                if isinstance(st, ast.Assign) and len(st.targets) == 1:
+            assigns = sorted((st for st in walk_fn(m.node) if isinstance(st, ast.Assign) and len(st.targets) == 1),
+                             key=lambda st: (st.lineno, st.col_offset))
+            for st in assigns + assigns:            # source order, twice: a local typed from a local typed further down a loop
+                if True:
                     t, v = st.targets[0], st.value
                     pairs = []
                     if isinstance(t, ast.Name):
@@ -187,8 +189,10 @@ def rule_ordering_types(run, prog, rid="R-5.13"):
                     elif isinstance(t, ast.Tuple) and isinstance(v, ast.Tuple) and len(t.elts) == len(v.elts):
                         pairs = [(a, b) for a, b in zip(t.elts, v.elts) if isinstance(a, ast.Name)]
                     for a, b in pairs:
+                        if isinstance(b, ast.Name) and "@" + b.id in locals_:
+                            locals_["@" + a.id] = locals_["@" + b.id]       # an alias of a typed object (the inliner's `self__h = self`)
                         k = ty.expr_kind(b, c, locals_)
-                        locals_[a.id] = k if a.id not in locals_ or locals_[a.id] == k else "unknown"
+                        locals_[a.id] = k if a.id not in locals_ or locals_[a.id] in (k, "unknown") else "unknown"
                         # an object of an ordered class: its fields are typed too
                         if isinstance(b, ast.Call) and isinstance(b.func, ast.Name) and b.func.id in ("min", "max") and len(b.args) == 1:
                             src = b.args[0]
